@@ -13,6 +13,7 @@ import (
 	"strings"
 
 	secp256k1 "github.com/bytemare/secp256k1"
+	"github.com/bytemare/secp256k1/internal/field"
 	"github.com/bytemare/secp256k1/internal/verif/ev"
 	"github.com/bytemare/secp256k1/internal/verif/ref"
 )
@@ -34,6 +35,35 @@ import (
 type fhEnv struct {
 	rd      *fhReader
 	tracked []fhBuf
+	// persistent receivers that live through the whole sequence (created on first use): what a REJECTED decode does
+	// to its receiver is not specified, but whatever the receiver's limbs say afterwards, every later operation on
+	// the same object must agree with them
+	ps *secp256k1.Scalar
+	pe *secp256k1.Element
+}
+
+func (e *fhEnv) scalar() *secp256k1.Scalar {
+	if e.ps == nil {
+		e.ps = newScalar(big.NewInt(0x1234567))
+	}
+
+	return e.ps
+}
+
+func (e *fhEnv) element() *secp256k1.Element {
+	if e.pe == nil {
+		e.pe = newElement(Rep{nG(big.NewInt(9)), big.NewInt(5)})
+	}
+
+	return e.pe
+}
+
+// psValue / peValue: the model's view of the persistent objects, read from their stored limbs.
+func (e *fhEnv) psValue() *big.Int { return ref.Unmont([4]uint64(e.scalar().S), ref.N) }
+
+func (e *fhEnv) peValue() (ref.Pt, bool) {
+	p, ok, _ := abstract(e.element())
+	return p, ok
 }
 
 type fhBuf struct {
@@ -204,6 +234,15 @@ func fhOps() []fhOp {
 	g5 := nG(big.NewInt(5))
 	h := HPoint()
 	one := big.NewInt(1)
+
+	bitsWant := func(v *big.Int) string {
+		var sb strings.Builder
+		for i := 0; i < 256; i++ {
+			sb.WriteByte('0' + byte(v.Bit(i)))
+		}
+
+		return sb.String()
+	}
 
 	// ---- element decoders ------------------------------------------------------------------------------
 	type namedBytes struct {
@@ -538,15 +577,6 @@ func fhOps() []fhOp {
 		return fhScalarObs(s, s.CSelect(1, nil, newScalar(sPat)))
 	}})
 
-	bitsWant := func(v *big.Int) string {
-		var sb strings.Builder
-		for i := 0; i < 256; i++ {
-			sb.WriteByte('0' + byte(v.Bit(i)))
-		}
-
-		return sb.String()
-	}
-
 	for _, v := range []*big.Int{sPat, nm1} {
 		v := v
 		add(fhOp{name: fmt.Sprintf("Bits(%x)", v), fam: "bits", want: constant(bitsWant(v)), run: func(e *fhEnv) string {
@@ -569,6 +599,154 @@ func fhOps() []fhOp {
 		var s *secp256k1.Scalar
 		return fmt.Sprint(s.Bits())
 	}})
+
+	// ---- small results (leading zero bytes: padding code) ------------------------------------------------------
+	add(fhOp{name: "scalar arithmetic with small results", fam: "sarith", want: constant(fmt.Sprintf("%x %x %x %x %x", ref.Bytes32(big.NewInt(8)), ref.Bytes32(big.NewInt(6)), ref.Bytes32(big.NewInt(2)), ref.Bytes32(one), ref.Bytes32(big.NewInt(0)))),
+		run: func(e *fhEnv) string {
+			two, three := newScalar(big.NewInt(2)), newScalar(big.NewInt(3))
+			return fmt.Sprintf("%x %x %x %x %x", two.Copy().Pow(three).Encode(), two.Copy().Multiply(three).Encode(), newScalar(one).Add(newScalar(one)).Encode(),
+				newScalar(one).Invert().Encode(), two.Copy().Subtract(two).Encode())
+		}})
+
+	// ---- persistent receivers -------------------------------------------------------------------------------
+	// decodes into ONE scalar and ONE element that live through the sequence, and operations that must agree with
+	// whatever limbs these objects hold at that moment
+	for _, in := range []namedBytes{{"7", ref.Bytes32(big.NewInt(7))}, {"pattern", ref.Bytes32(sPat)}, {"n+5", ref.Bytes32(new(big.Int).Add(ref.N, big.NewInt(5)))},
+		{"2^256-1", ref.Bytes32(new(big.Int).Sub(ref.Two256(), one))}, {"31 bytes", ref.Bytes32(sPat)[:31]}} {
+		in := in
+		w, ok := sWant(in.b)
+
+		if ok {
+			w = "ok"
+		}
+
+		add(fhOp{name: "persistent scalar.Decode(" + in.n + ")", fam: "psdec", fault: !ok, want: constant(w), run: func(e *fhEnv) string {
+			if err := e.scalar().Decode(in.b); err != nil {
+				return fhErr
+			}
+
+			return "ok"
+		}})
+	}
+
+	add(fhOp{name: "persistent scalar.DecodeHex(bad digit at 40)", fam: "psdec", fault: true, want: constant(fhErr), run: func(e *fhEnv) string {
+		if err := e.scalar().DecodeHex(hexP[:40] + "_" + hexP[41:]); err != nil {
+			return fhErr
+		}
+
+		return "ok"
+	}})
+	add(fhOp{name: "persistent scalar.Add(3)", fam: "psdec", want: constant("ok"), run: func(e *fhEnv) string {
+		e.scalar().Add(newScalar(big.NewInt(3)))
+		return "ok"
+	}})
+	add(fhOp{name: "[persistent scalar]H", fam: "emul", heavy: true,
+		want: func(e *fhEnv) string { return fhPtObs(ref.Secp.Mul(e.psValue(), h)) },
+		run:  func(e *fhEnv) string { return fhElemObs(newElement(Rep{h, one}).Multiply(e.scalar()), nil) }})
+	add(fhOp{name: "Bits/Encode/Hex(persistent scalar)", fam: "bits",
+		want: func(e *fhEnv) string {
+			v := e.psValue()
+			return bitsWant(v) + fmt.Sprintf(" %x %x", ref.Bytes32(v), ref.Bytes32(v))
+		},
+		run: func(e *fhEnv) string {
+			bits := e.scalar().Bits()
+			var sb strings.Builder
+
+			for _, b := range bits {
+				sb.WriteByte('0' + b)
+			}
+
+			return sb.String() + fmt.Sprintf(" %x %s", e.scalar().Encode(), e.scalar().Hex())
+		}})
+	add(fhOp{name: "comparisons(persistent scalar)", fam: "cmp",
+		want: func(e *fhEnv) string {
+			v := e.psValue()
+			le := func(a, b *big.Int) int {
+				if a.Cmp(b) <= 0 {
+					return 1
+				}
+
+				return 0
+			}
+
+			return fmt.Sprintf("%d %d %d %v %v", le(v, sPat), le(sPat, v), le(v, v), v.Sign() == 0, v.Cmp(one) == 0)
+		},
+		run: func(e *fhEnv) string {
+			s, o := e.scalar(), newScalar(sPat)
+			return fmt.Sprintf("%d %d %d %v %v", s.LessOrEqual(o), o.LessOrEqual(s), s.LessOrEqual(s.Copy()), s.IsZero(), s.IsOne())
+		}})
+	add(fhOp{name: "arithmetic(persistent scalar)", fam: "sarith",
+		want: func(e *fhEnv) string {
+			v := e.psValue()
+			return fmt.Sprintf("%x %x %x", ref.Bytes32(zn.Add(v, sPat)), ref.Bytes32(zn.Mul(sPat, v)), ref.Bytes32(zn.Inv0(v)))
+		},
+		run: func(e *fhEnv) string {
+			s := e.scalar()
+			return fmt.Sprintf("%x %x %x", s.Copy().Add(newScalar(sPat)).Encode(), newScalar(sPat).Multiply(s).Encode(), s.Copy().Invert().Encode())
+		}})
+
+	for _, in := range append([]namedBytes{{"enc(5G)", ref.Enc(g5)}, {"unc(H)", ref.EncUncompressed(h)}}, invalid[:6]...) {
+		in := in
+		_, ok := ref.Dec(in.b, ref.FormAny)
+		w := fhErr
+
+		if ok {
+			w = "ok"
+		}
+
+		add(fhOp{name: "persistent element.Decode(" + in.n + ")", fam: "pedec", fault: !ok, want: constant(w), run: func(e *fhEnv) string {
+			if err := e.element().Decode(e.slice("persistent element.Decode", in.b)); err != nil {
+				return fhErr
+			}
+
+			return "ok"
+		}})
+	}
+
+	add(fhOp{name: "persistent element.Double()", fam: "pedec", want: constant("ok"), run: func(e *fhEnv) string {
+		e.element().Double()
+		return "ok"
+	}})
+
+	peWant := func(f func(p ref.Pt) string) func(e *fhEnv) string {
+		return func(e *fhEnv) string {
+			p, ok := e.peValue()
+			if !ok {
+				return "receiver left in a state that is no curve point"
+			}
+
+			return f(p)
+		}
+	}
+
+	add(fhOp{name: "H + persistent element, H - it, it.Copy() + H", fam: "earith",
+		want: peWant(func(p ref.Pt) string {
+			return fhPtObs(ref.Secp.Add(h, p)) + fhPtObs(ref.Secp.Sub(h, p)) + fhPtObs(ref.Secp.Add(p, h))
+		}),
+		run: func(e *fhEnv) string {
+			return fhElemObs(newElement(Rep{h, one}).Add(e.element()), nil) + fhElemObs(newElement(Rep{h, big.NewInt(2)}).Subtract(e.element()), nil) +
+				fhElemObs(e.element().Copy().Add(newElement(Rep{h, one})), nil)
+		}})
+	add(fhOp{name: "Equal/IsIdentity(persistent element)", fam: "eq",
+		want: peWant(func(p ref.Pt) string {
+			return fmt.Sprint(b2i(p.Eq(g5)), b2i(p.Eq(g5)), b2i(p.Eq(h)), 1, p.Inf)
+		}),
+		run: func(e *fhEnv) string {
+			pe := e.element()
+			a, b := newElement(Rep{g5, big.NewInt(2)}), newElement(Rep{h, one})
+
+			return fmt.Sprint(pe.Equal(a), a.Equal(pe), pe.Equal(b), pe.Equal(pe.Copy()), pe.IsIdentity())
+		}})
+	add(fhOp{name: "encoders(persistent element)", fam: "eenc",
+		want: peWant(func(p ref.Pt) string { return fmt.Sprintf("%x/%x", ref.Enc(p), fhEncUncompressed(p)) }),
+		run: func(e *fhEnv) string {
+			c, u := e.element().Encode(), e.element().EncodeUncompressed()
+			s := fmt.Sprintf("%x/%x", c, u)
+			scribble(c)
+			scribble(u)
+
+			return s
+		}})
 
 	// ---- hashing -----------------------------------------------------------------------------------------
 	msgs := []namedBytes{{"m1", []byte("m1")}, {"abc", []byte("abc")}}
@@ -667,6 +845,66 @@ func fhOps() []fhOp {
 		}})
 	}
 
+	// ---- field layer (C12): the internal package is the property's anchor; the harness calls it as the root package does
+	feHex := func(fe *field.Element) string {
+		return fmt.Sprintf("%x", ref.Bytes32(ref.Unmont([4]uint64(fe.E), ref.P)))
+	}
+	w48a, w48b := fill(48, 1), append(bytes.Repeat([]byte{0xff}, 40), fill(8, 2)...)
+
+	for _, w := range [][]byte{w48a, w48b} {
+		w := w
+		add(fhOp{name: fmt.Sprintf("field.HashToFieldElement(%x..)", w[:4]), fam: "field", want: constant(fmt.Sprintf("%x", ref.Bytes32(ref.Mod(ref.OS2IP(w), ref.P)))),
+			run: func(e *fhEnv) string { return feHex(field.New().HashToFieldElement([48]byte(w))) }})
+	}
+
+	for _, n := range []int{1, 16, 24, 31, 32} {
+		n := n
+		in := fill(32, 2)[32-n:]
+		in[0] &= 0x7f
+		add(fhOp{name: fmt.Sprintf("field.FromBytesNoReduce(%d bytes)", n), fam: "field", want: constant(fmt.Sprintf("%x", ref.Bytes32(ref.OS2IP(in)))),
+			run: func(e *fhEnv) string {
+				return feHex(field.New().FromBytesNoReduce(e.slice("field.FromBytesNoReduce", in)))
+			}})
+		add(fhOp{name: fmt.Sprintf("(*field.Element)(nil).FromBytesNoReduce(%d bytes)", n), fam: "field", fault: true, want: constant(fhPanic),
+			run: func(e *fhEnv) string {
+				var fe *field.Element
+				return feHex(fe.FromBytesNoReduce(e.slice("nil.FromBytesNoReduce", in)))
+			}})
+	}
+
+	for _, v := range []*big.Int{big.NewInt(5), new(big.Int).Sub(ref.P, one), ref.P, new(big.Int).Sub(ref.Two256(), one)} {
+		v := v
+		w := fmt.Sprintf("%x 1", ref.Bytes32(v))
+
+		if v.Cmp(ref.P) >= 0 {
+			w = "rejected"
+		}
+
+		add(fhOp{name: fmt.Sprintf("field.FromBytesWithReduce(%x)", v), fam: "field", fault: v.Cmp(ref.P) >= 0, want: constant(w),
+			run: func(e *fhEnv) string {
+				fe, ok := field.New().FromBytesWithReduce(ref.Arr32(v))
+				if ok != 1 {
+					return "rejected"
+				}
+
+				return feHex(fe) + " 1"
+			}})
+	}
+
+	fa, fb := ref.Mod(ref.OS2IP(fill(32, 1)), ref.P), big.NewInt(3)
+	add(fhOp{name: "field arithmetic", fam: "field", want: constant(fmt.Sprintf("%x %x %x %x %x", ref.Bytes32(ref.Fp.Add(fa, fb)), ref.Bytes32(ref.Fp.Sub(fb, fa)), ref.Bytes32(ref.Fp.Mul(fa, fb)), ref.Bytes32(ref.Fp.Inv0(fa)), ref.Bytes32(ref.Fp.Neg(fb)))),
+		run: func(e *fhEnv) string {
+			a, b := feVal(fa), feVal(fb)
+			inv := field.New()
+			inv.Invert(*a)
+
+			return fmt.Sprintf("%s %s %s %s %s", feHex(field.New().Add(a, b)), feHex(field.New().Subtract(b, a)), feHex(field.New().Multiply(a, b)), feHex(inv), feHex(field.New().Negate(b)))
+		}})
+	add(fhOp{name: "(*field.Element)(nil).Add / Bytes", fam: "field", fault: true, want: constant(fhPanic), run: func(e *fhEnv) string {
+		var fe *field.Element
+		return feHex(fe.Add(feVal(fa), feVal(fb))) + fmt.Sprintf("%x", fe.Bytes())
+	}})
+
 	fhOpsMemo = ops
 
 	return ops
@@ -676,7 +914,7 @@ func fhOps() []fhOp {
 var fhFamilies = map[string][]string{
 	"C01": {"emul"}, "C02": {"earith"}, "C03": {"edec"}, "C04": {"eenc", "edec"}, "C05": {"eq"}, "C06": {"sarith"}, "C07": {"sdec", "senc"},
 	"C08": {"hashg"}, "C09": {"hashs"}, "C10": {"edec", "eenc", "earith", "emul", "eq", "sarith", "sdec", "senc", "cmp", "bits", "hashg", "hashs"},
-	"C11": {"map"}, "C13": {"cmp"}, "C14": {"bits"}, "C15": {"edec", "sdec", "hashg", "hashs", "eenc", "senc"}, "C18": {"rand"},
+	"C11": {"map"}, "C12": {"field"}, "C13": {"cmp"}, "C14": {"bits"}, "C15": {"edec", "sdec", "hashg", "hashs", "eenc", "senc"}, "C18": {"rand"},
 }
 
 func fhIn(fams []string, f string) bool {
@@ -806,7 +1044,7 @@ func faultPart(prop string) func(r *ev.Report) {
 
 		for _, c := range targets {
 			for a, oa := range ops {
-				if oa.fam != ops[c].fam {
+				if oa.fam != ops[c].fam && oa.fam != "psdec" && oa.fam != "pedec" {
 					continue
 				}
 
@@ -839,6 +1077,10 @@ func faultPart(prop string) func(r *ev.Report) {
 
 		outcomes := map[string]bool{}
 
+		// the two sequences this process ran before the current one: what they leave in the library is part of the
+		// history of the current one, and a replay runs them first
+		var prev1, prev2 []int
+
 		for i, seq := range seqs {
 			if i%sn != si {
 				continue
@@ -850,6 +1092,8 @@ func faultPart(prop string) func(r *ev.Report) {
 			}
 
 			key, detail := fhRun(seq, buffers)
+			before := fhSeqString(prev2) + ";" + fhSeqString(prev1)
+			prev2, prev1 = prev1, seq
 			r.Evals.Add(1)
 			r.States.Add(1)
 			r.Transitions.Add(int64(len(seq)))
@@ -860,7 +1104,7 @@ func faultPart(prop string) func(r *ev.Report) {
 			}
 
 			if key != "" {
-				r.Violation(key, detail, Case{"op": "faulthist", "seq": fhSeqString(seq), "buffers": fmt.Sprint(buffers)})
+				r.Violation(key, detail, Case{"op": "faulthist", "seq": fhSeqString(seq), "buffers": fmt.Sprint(buffers), "before": before})
 			}
 		}
 
@@ -882,6 +1126,21 @@ func ReplayFaultHist(c Case) (bool, string) {
 	for _, s := range seq {
 		if s < 0 || s >= len(fhOps()) {
 			return false, "history does not apply to this catalogue"
+		}
+	}
+
+	for _, b := range strings.Split(c["before"], ";") {
+		var pre []int
+
+		for _, f := range strings.Split(b, ",") {
+			var i int
+			if _, err := fmt.Sscan(f, &i); err == nil && i >= 0 && i < len(fhOps()) {
+				pre = append(pre, i)
+			}
+		}
+
+		if len(pre) > 0 {
+			fhRun(pre, false)
 		}
 	}
 
